@@ -157,7 +157,7 @@ pub fn run() {
 	let s255: String = "ü".repeat(127) + "x"; // 255 bytes of UTF-8
 	let k255: String = "k".repeat(255);
 	let marker = "U S l { } \u{0} [".to_string();
-	cx.note("rule", json!("all trees of a bounded grammar, every key ORDER included (ordered selections of distinct keys): level-1 maps with <=3 entries over keys {\"\", a, é, lastFrame, 255-byte key} (quick: 4 keys) and 12 leaf values (strings \"\", x, 255 bytes of 2-byte UTF-8, text made of the marker bytes U S l { } NUL; ints 0, 1, -1, 127, 128, 65536, i32::MIN, i32::MAX); nested trees to depth 3 with <=2 entries per map; chains of depth 1..140 (beyond depth 100 the reader may refuse; whatever it accepts must make the whole trip); widths up to 40 entries; 100..255 sibling maps (at top level, at depth 3, next to a 100-deep chain); keys with a private meaning in JSON libraries (serde_json's RawValue / Number markers, __proto__, control characters, quotes) with 5 value kinds at 4 places; blocks of 77 KB and 260 KB; the same file with a declared raw length of 0; no metadata; empty metadata; each with Game End present, absent or doubled (rotating). Encoded by the harness's own UBJSON writer, embedded in a minimal replay. Oracle: Game.metadata == the tree with the same key order, write reproduces the input bytes, metadata.json inside the .slpp (own tar reader, order-preserving tokenizer) has the same keys in the same order and the same values, peppi::read gives the same tree; absent metadata => None / null. Every case is non-trivial (distinct tree)"));
+	cx.note("rule", json!("all trees of a bounded grammar, every key ORDER included (ordered selections of distinct keys): level-1 maps with <=3 entries over keys {\"\", a, é, lastFrame, 255-byte key} (quick: 4 keys) and 12 leaf values (strings \"\", x, 255 bytes of 2-byte UTF-8, text made of the marker bytes U S l { } NUL; ints 0, 1, -1, 127, 128, 65536, i32::MIN, i32::MAX); nested trees to depth 3 with <=2 entries per map; chains of depth 1..140 (beyond depth 100 the reader may refuse; whatever it accepts must make the whole trip); widths up to 40 entries; 100..255 sibling maps (at top level, at depth 3, next to a 100-deep chain); keys with a private meaning in JSON libraries or decoders (serde_json's RawValue / Number markers, __proto__, a leading or trailing U+FEFF, control characters, quotes) with 6 value kinds at 4 places; blocks of 77 KB and 260 KB; the same file with a declared raw length of 0; no metadata; empty metadata; each with Game End present, absent or doubled (rotating). Encoded by the harness's own UBJSON writer, embedded in a minimal replay. Oracle: Game.metadata == the tree with the same key order, write reproduces the input bytes, metadata.json inside the .slpp (own tar reader, order-preserving tokenizer) has the same keys in the same order and the same values, peppi::read gives the same tree; absent metadata => None / null. Every case is non-trivial (distinct tree)"));
 	cx.note("exhaustive", json!(true));
 	cx.note("assumptions", json!(["map nesting is bounded by the library (fix 1cec1ba) so that hostile nesting cannot overflow the stack; a refusal beyond depth 100 is accepted", "trees larger than the grammar (more entries per map, deeper nesting with wide maps) are not enumerated"]));
 	let quick = cx.quick();
@@ -204,8 +204,8 @@ pub fn run() {
 	// keys that JSON libraries give a private meaning to (serde_json's `raw_value` and `arbitrary_precision`
 	// markers), and keys that look like other things: as the first key, a later key, at top level and nested,
 	// with a string, a number-looking string, an int and a map as value
-	for magic in ["$serde_json::private::RawValue", "$serde_json::private::Number", "$__toml_private_datetime", "__proto__", "\u{0}", "a\"b\\c", "\u{7f}\t\n"] {
-		for val in [MVal::Str("12".into()), MVal::Str("not json".into()), MVal::Str("{\"x\":1}".into()), MVal::Int(7), MVal::Map(vec![("x".into(), MVal::Int(1))])] {
+	for magic in ["\u{feff}tag", "tag\u{feff}", "\u{feff}", "\u{fffe}x", "$serde_json::private::RawValue", "$serde_json::private::Number", "$__toml_private_datetime", "__proto__", "\u{0}", "a\"b\\c", "\u{7f}\t\n"] {
+		for val in [MVal::Str("\u{feff}bom first".into()), MVal::Str("12".into()), MVal::Str("not json".into()), MVal::Str("{\"x\":1}".into()), MVal::Int(7), MVal::Map(vec![("x".into(), MVal::Int(1))])] {
 			all.push(Some(vec![(magic.to_string(), val.clone())]));
 			all.push(Some(vec![("extra".into(), MVal::Map(vec![(magic.to_string(), val.clone())]))]));
 			all.push(Some(vec![("a".into(), MVal::Int(1)), (magic.to_string(), val.clone()), ("z".into(), MVal::Str("x".into()))]));
